@@ -4,6 +4,7 @@ import (
 	"encoding/json"
 	"fmt"
 	"os"
+	"time"
 
 	"github.com/osmosis-labs/osmosis/v31/zzverif/core"
 )
@@ -174,6 +175,74 @@ func mapOrderAxis(f *core.Flags, r *core.Result, sc Script, only *replayCfg, ite
 					Signature: fmt.Sprintf("%s|block %d|%s", sc.Name, bi, firstDiffStep(ref[bi], got[bi])),
 					Detail: fmt.Sprintf("choice point %d (map with %d entries, %d bucket bits) started at %d instead of 0: %s", i, cp.Count, cp.B, alt, d),
 					Replay: replayCfg{Script: sc.Name, Axis: "maporder", Dev: []int{i, int(alt)}}})
+				break
+			}
+		}
+	}
+}
+
+// ---------------------------------------------------------------------------------------------
+// wall-clock axis: while a workload runs, time.Now answers what the harness says
+// ---------------------------------------------------------------------------------------------
+
+type clockOwner struct {
+	on    bool
+	mode  int // 0 fixed 2024, 1 fixed 1970, 2 fixed 2100, 3 advancing one hour per call
+	calls int
+}
+
+var ck clockOwner
+
+func nowHook() (time.Time, bool) {
+	if !ck.on {
+		return time.Time{}, false
+	}
+	ck.calls++
+	switch ck.mode {
+	case 1:
+		return time.Date(1970, 1, 1, 0, 0, 1, 0, time.UTC), true
+	case 2:
+		return time.Date(2100, 6, 15, 12, 0, 0, 0, time.UTC), true
+	case 3:
+		return time.Date(2024, 1, 1, 0, 0, 0, 0, time.UTC).Add(time.Duration(ck.calls) * time.Hour), true
+	}
+	return time.Date(2024, 1, 1, 0, 0, 0, 0, time.UTC), true
+}
+
+func runWithClock(sc Script, mode int) ([][]Step, int) {
+	n := genesisNode()
+	defer n.Env.Close()
+	ck.mode, ck.calls = mode, 0
+	var out [][]Step
+	for _, b := range sc.Blocks {
+		ck.on = true
+		st := n.RunBlock(b)
+		ck.on = false
+		out = append(out, st)
+	}
+	return out, ck.calls
+}
+
+func clockAxis(f *core.Flags, r *core.Result, sc Script, only *replayCfg, item *int) {
+	if !haveMapHook {
+		return
+	}
+	mine := (f.Replay == "" && f.Mine(*item)) || only.Axis == "clock"
+	*item++
+	if !mine {
+		return
+	}
+	setNowHook(nowHook)
+	ref, calls := runWithClock(sc, 0)
+	r.Extra["max_time_now_calls_"+sc.Name] = float64(calls)
+	for mode := 1; mode <= 3; mode++ {
+		got, _ := runWithClock(sc, mode)
+		r.Traces++
+		r.Vacuity["wall_clock_variants_executed"]++
+		for bi := range got {
+			if d := diffSteps(ref[bi], got[bi], false); d != "" {
+				r.AddViolation(core.Violation{Property: f.Prop, Assertion: "c19.wall-clock-independent", Signature: fmt.Sprintf("%s|mode %d|block %d|%s", sc.Name, mode, bi, firstDiffStep(ref[bi], got[bi])),
+					Detail: fmt.Sprintf("time.Now answering variant %d instead of a fixed 2024-01-01: %s", mode, d), Replay: replayCfg{Script: sc.Name, Axis: "clock"}})
 				break
 			}
 		}
